@@ -87,6 +87,8 @@ func (e *c13Exec) outstanding() int {
 }
 
 type c13Probe struct {
+	inActive   string
+	swallow    bool
 	id         int64
 	active     int32
 	inactive   int32
@@ -98,6 +100,15 @@ func (p *c13Probe) HandleActive(ctx netty.ActiveContext) {
 	atomic.AddInt32(&p.active, 1)
 	if p.gate != nil {
 		p.gate("active")
+	}
+	switch p.inActive {
+	case "handshake-read":
+		// a handler doing a blocking handshake read during activation: only closing the transport ends it
+		var b [1]byte
+		ctx.Channel().Transport().Read(b[:])
+	case "panic":
+		p.swallow = true
+		panic(errors.New("active handler failed"))
 	}
 	ctx.HandleActive()
 }
@@ -111,6 +122,9 @@ func (p *c13Probe) HandleInactive(ctx netty.InactiveContext, ex netty.Exception)
 }
 
 func (p *c13Probe) HandleException(ctx netty.ExceptionContext, ex netty.Exception) {
+	if p.swallow {
+		return // the application keeps the channel open after its active handler failed
+	}
 	ctx.Close(ex)
 }
 
@@ -132,7 +146,7 @@ func (g c13Cfg) String() string {
 		g.listeners, g.preInject, g.preConnect, g.concInject, g.concConn, g.closeSome, g.lclose, g.gate, g.until, g.lateAsync)
 }
 
-var c13Gates = []string{"none", "loop-start", "in-listen", "before-accept", "child-init", "active", "client-init", "activate-during-closeall"}
+var c13Gates = []string{"none", "loop-start", "in-listen", "before-accept", "child-init", "active", "client-init", "activate-during-closeall", "handshake-read-in-active", "panic-in-active"}
 
 func runC13(c *core.Ctx) {
 	total := c.Scale(1600, 30000)
@@ -142,6 +156,9 @@ func runC13(c *core.Ctx) {
 	for idx := 0; idx < total; idx++ {
 		if !c.Mine(idx) {
 			continue
+		}
+		if c.Enough() {
+			break
 		}
 		id := fmt.Sprintf("h%d", idx)
 		if !c.CaseQuiet(id) {
@@ -165,6 +182,13 @@ func runC13(c *core.Ctx) {
 		}
 		if cfg.gate == "loop-start" || cfg.gate == "in-listen" || cfg.gate == "before-accept" {
 			cfg.preInject = 0 // nothing is accepting before Shutdown in these placements
+		}
+		if cfg.gate == "handshake-read-in-active" {
+			cfg.listeners, cfg.preInject, cfg.preConnect, cfg.concInject, cfg.concConn = 1, 1, rng.Intn(2), 0, 0
+			cfg.closeSome, cfg.lclose, cfg.lateAsync = false, -1, false
+		}
+		if cfg.gate == "panic-in-active" {
+			cfg.closeSome = false
 		}
 		if cfg.gate == "activate-during-closeall" {
 			cfg.preInject, cfg.preConnect = 1+rng.Intn(2), rng.Intn(2)
@@ -201,6 +225,12 @@ func c13Trial(c *core.Ctx, id string, cfg c13Cfg) {
 			p := &c13Probe{id: ch.ID()}
 			if cfg.gate == "active" {
 				p.gate = func(string) { wait() }
+			}
+			if cfg.gate == "handshake-read-in-active" && kind == "child" {
+				p.inActive = "handshake-read"
+			}
+			if cfg.gate == "panic-in-active" {
+				p.inActive = "panic"
 			}
 			if cfg.gate == "activate-during-closeall" {
 				// an established channel's inactive handler is slow: Shutdown's CloseAll is held inside it
@@ -321,7 +351,7 @@ func c13Trial(c *core.Ctx, id string, cfg c13Cfg) {
 			}
 		}()
 	}
-	preGated := cfg.gate == "child-init" || cfg.gate == "active" || cfg.gate == "client-init"
+	preGated := cfg.gate == "child-init" || cfg.gate == "active" || cfg.gate == "client-init" || cfg.gate == "handshake-read-in-active"
 	for k := 0; k < cfg.preInject; k++ {
 		inject(k)
 	}
